@@ -166,3 +166,53 @@ pub fn chk_lag_total(a: u8, days: i8, settlement: bool) -> Result<(), &'static s
     if o_days(got.year(), got.month(), got.day()) != o_days(y, m, d) + days as i64 { return Err("lag: wrong date on all-business calendar"); }
     Ok(())
 }
+
+
+// ------------------------------------------------------------------------------------------------
+// IEEE-exact clauses (C19 ordering).  Inputs are raw bit patterns so
+// that NaNs, signed zeros, subnormals and infinities are all in scope.  Numbers carry NO variables
+// (the clause is about the value only); `RandomState::new` is stubbed in the harness.
+use rateslib::dual::{Dual, Dual2, Number};
+
+pub fn chk_ord_dual(xb: u64, yb: u64) -> Result<(), &'static str> {
+    let (x, y) = (f64::from_bits(xb), f64::from_bits(yb));
+    let a = Dual::new(x, Vec::new());
+    let b = Dual::new(y, Vec::new());
+    let mut r = Ok(());
+    if a.partial_cmp(&b) != x.partial_cmp(&y) { r = Err("Dual vs Dual ordering differs from the ordering of the values"); }
+    if (a < b) != (x < y) || (a <= b) != (x <= y) || (a > b) != (x > y) || (a >= b) != (x >= y) { r = Err("Dual vs Dual comparison operators differ from the float operators"); }
+    if a.partial_cmp(&y) != x.partial_cmp(&y) { r = Err("Dual vs float ordering differs"); }
+    if x.partial_cmp(&b) != x.partial_cmp(&y) { r = Err("float vs Dual ordering differs"); }
+    std::mem::forget(a);
+    std::mem::forget(b);
+    r
+}
+pub fn chk_ord_dual2(xb: u64, yb: u64) -> Result<(), &'static str> {
+    let (x, y) = (f64::from_bits(xb), f64::from_bits(yb));
+    let a = Dual2::new(x, Vec::new());
+    let b = Dual2::new(y, Vec::new());
+    let mut r = Ok(());
+    if a.partial_cmp(&b) != x.partial_cmp(&y) { r = Err("Dual2 vs Dual2 ordering differs from the ordering of the values"); }
+    if (a < b) != (x < y) || (a <= b) != (x <= y) || (a > b) != (x > y) || (a >= b) != (x >= y) { r = Err("Dual2 vs Dual2 comparison operators differ from the float operators"); }
+    if a.partial_cmp(&y) != x.partial_cmp(&y) { r = Err("Dual2 vs float ordering differs"); }
+    if x.partial_cmp(&b) != x.partial_cmp(&y) { r = Err("float vs Dual2 ordering differs"); }
+    std::mem::forget(a);
+    std::mem::forget(b);
+    r
+}
+fn mk_number(kind: u8, x: f64) -> Number {
+    match kind { 0 => Number::F64(x), 1 => Number::Dual(Dual::new(x, Vec::new())), _ => Number::Dual2(Dual2::new(x, Vec::new())) }
+}
+pub fn pre_ord_number(ka: u8, kb: u8) -> bool { ka <= 2 && kb <= 2 && !(ka == 1 && kb == 2) && !(ka == 2 && kb == 1) }
+pub fn chk_ord_number(xb: u64, yb: u64, ka: u8, kb: u8) -> Result<(), &'static str> {
+    let (x, y) = (f64::from_bits(xb), f64::from_bits(yb));
+    let a = mk_number(ka, x);
+    let b = mk_number(kb, y);
+    let mut r = Ok(());
+    if a.partial_cmp(&b) != x.partial_cmp(&y) { r = Err("Number vs Number ordering differs from the ordering of the values"); }
+    if a.partial_cmp(&y) != x.partial_cmp(&y) { r = Err("Number vs float ordering differs"); }
+    if x.partial_cmp(&b) != x.partial_cmp(&y) { r = Err("float vs Number ordering differs"); }
+    std::mem::forget(a);
+    std::mem::forget(b);
+    r
+}
